@@ -9,6 +9,11 @@ import os
 import sys
 
 RND = sys.argv[1]
+PERSONAS = {
+    "9": 'Think like three different maintainers: one making the code "more defensive" (an extra guard, a clamp, an early return), one porting a loop to iterators or changing an integer width / a container type, one handling a corner case (empty, single element, the root, the last element, a maximal value, an obsolete term, a tie) differently.',
+    "10": 'Think like three different maintainers: one touching NUMBERS (an `as` cast, a rounding, a float comparison, `<` against `<=` at a tie, saturating / wrapping arithmetic, the order of a sum, min against max, a count taken from the wrong collection), one relying on an ORDERING or UNIQUENESS assumption that the callers do not guarantee (input not sorted, duplicates, reversed, the same element on both sides, equal keys), one introducing or reusing STATE (a cache, a memo, a buffer kept between calls, a clone that shares or forgets something, an iterator used twice, calling the same function a second time, an early `return` that skips an update).',
+}
+PERSONA = PERSONAS.get(RND, PERSONAS["9"])
 ROOT = os.path.dirname(os.path.dirname(os.path.abspath(__file__)))
 props = {}
 for l in open(os.path.join(ROOT, "properties.jsonl")):
@@ -41,7 +46,7 @@ YOUR TASK: produce THREE different, realistic code changes ("mutations") to the 
   2. BREAKS the property above (makes the library misbehave on inputs inside the property's quantifier),
   3. needs something specific to manifest — NOT something that ordinary use would expose at once,
   4. looks like a plausible bug a maintainer could introduce, is small (a few lines), and touches only non-test code.
-The three changes must be in three different functions, and may be ANYWHERE in `src/` — the anchor files, but also shared helpers the anchored code relies on (id sets and their merge/insert routines, the arena, conversions, parsers, iterators, `Default`/`From`/`TryFrom` impls, comparison and hashing impls). Think like three different maintainers: one making the code "more defensive" (an extra guard, a clamp, an early return), one porting a loop to iterators or changing an integer width / a container type, one handling a corner case (empty, single element, the root, the last element, a maximal value, an obsolete term, a tie) differently. Prefer functions and code paths that the earlier changes (listed below) did not touch.
+The three changes must be in three different functions, and may be ANYWHERE in `src/` — the anchor files, but also shared helpers the anchored code relies on (id sets and their merge/insert routines, the arena, conversions, parsers, iterators, `Default`/`From`/`TryFrom` impls, comparison and hashing impls). {PERSONA} Prefer functions and code paths that the earlier changes (listed below) did not touch.
 
 Changes of earlier rounds (do NOT repeat these or close variants):
 {chr(10).join(studied)}
